@@ -30,6 +30,11 @@ SLICES = {
     'outline-ovarray': (BASE, X.tf_outline('function'), X.need(X.has_region, 'region-array-option'), 1, X.regions_post(ovarray=True)),
     'outline-print': (BASE, X.tf_outline('function'), X.need(X.has_region, 'region-print-array'), 1, X.regions_post(allow_print=True)),
     'outline-assoc': (('assoc', 'select'), X.tf_outline('function'), X.need(X.has_region, 'region-in-assoc'), 1, X.regions_post(allow_assoc=True)),
+    # regions inside loops that define loop-carried plain locals (read by the next iteration before the region)
+    'outline-loopcarried': (('select', 'loopcarried'), X.tf_outline('function'), X.need(X.has_region, 'region-loop-carried'), 4),
+    'outline-loopcarried-xform': (('modsubs', 'loopcarried'), X.tf_outline('xform'), X.need(X.has_region, 'region-loop-carried'), 1, X.regions_post()),
+    'outline-casemix': (BASE + ('modsubs',), X.tf_outline('function'), X.has_region, 2, X.casemix_post(X.regions_post())),
+    'extract-casemix': (BASE + ('internal', 'modsubs', 'nohostarrays'), X.tf_extract('function'), ap_internal, 2, X.casemix_post()),
     'extract': (BASE + ('internal', 'modsubs', 'nohostarrays'), X.tf_extract('function'), ap_internal, 4),
     'extract-hostarrays': (('internal', 'select'), X.tf_extract('function'), X.need(ap_internal, 'host-array-2refs'), 1),
     'extract-xform': (BASE + ('internal', 'nohostarrays'), X.tf_extract('xform'), ap_internal, 2),
@@ -45,4 +50,5 @@ def run(ctx):
         'in()/inout()/out() options are only generated when they are consistent with the region (promotion of read-only to in, of anything definable to inout, of a variable assigned first to out)',
         'regions that call internal procedures are only generated together with extract_internals=True',
         'internal procedures: subroutines and functions with host association, own loop variables, optional shadowing of host scalars; sibling calls between internal procedures are not generated',
-        'not generated: derived types, allocatables, assumed-shape arrays, imports of variables'])
+        'not generated: derived types, allocatables, assumed-shape arrays, imports of variables'],
+        minimums={'region-loop-carried': 8 if ctx.quick else 40})
